@@ -896,7 +896,7 @@ htp_status_t htp_connp_RES_HEADERS(htp_connp_t *connp) {
                     // hanldes LF-CR sequence as end of line
                     OUT_COPY_BYTE_OR_RETURN(connp);
                     lfcrending = 1;
-                    HTP_VERIF_TRACE(1, connp, connp->out_tx, 0);
+                    HTP_VERIF_TRACE(1, connp, connp->out_tx, (connp->out_current_read_offset >= 3) ? (connp->out_current_data[connp->out_current_read_offset - 3] == CR) : ((connp->out_buf != NULL) && (connp->out_buf_size > 0) && (connp->out_buf[connp->out_buf_size - 1] == CR)));
                 }
             }
 
